@@ -192,6 +192,9 @@ class MPS:
             u, s, v = np.linalg.svd(v.reshape((Dleft*d, d**(nsites-i-1))), full_matrices=False)
             # truncate small singular values
             idx = retained_bond_indices(s, tol)
+            if len(idx) == 0:
+                # all singular values vanish (zero vector): retain a single one to keep a bond of dimension 1
+                idx = np.array([0])
             u = u[:, idx]
             v = v[idx, :]
             s = s[idx]
